@@ -204,9 +204,8 @@ func vocabData() []store.Series {
 }
 
 func GenVocab(t *testing.T, r *rand.Rand, prop, tier string, _ *atomic.Int64) *Case {
-	if vocabOnce == nil {
-		vocabOnce = buildVocab(rand.New(rand.NewSource(1)))
-	}
+	// arguments are redrawn per case (round(v, 1) would hide an ignored to_nearest)
+	vocabOnce = buildVocab(rand.New(rand.NewSource(r.Int63())))
 	// quick: a seeded sample; thorough: the vocabulary is walked by case index, positions drawn
 	idx := r.Intn(len(vocabOnce))
 	if tier == "thorough" {
